@@ -8,6 +8,12 @@ CHECKS = {
  "C06": dict(technique="metamorphic property testing over generated edit histories (proptest): history index == fresh index of latest valid contents at every prefix",
              text="Generated-input search over edit histories; oracle is the metamorphic relation between the index reached through a history and a freshly built index (no model). Exploration only.",
              note="trusted: the implementation itself as its own reference on a fresh database; invalid texts are invalid by construction", ref="DESIGN.md 4 C06", engine="vengine"),
+ "C04": dict(technique="metamorphic property testing (proptest) over workspaces and edit histories: U in refs(D) <=> goto(U) == D",
+             text="Generated-input search; the oracle is the inverse relation between two queries of the implementation plus the forward/reverse index invariant. Exploration only.",
+             note="trusted: nothing beyond the harness (pure cross-query relation); LSP/CLI counters are compared in sub-checks when built", ref="DESIGN.md 4 C04", engine="vengine"),
+ "C05": dict(technique="differential property testing (proptest): cross-feature agreement of the four resolvers at every usage",
+             text="Generated-input search; oracle is agreement between go-to-definition, the available-fixtures view, the outgoing-call resolver and position lookup, observed through probe tests. Exploration only.",
+             note="trusted: nothing beyond the harness (pure cross-feature comparison)", ref="DESIGN.md 4 C05", engine="vengine"),
 }
 PENDING = {
 }
